@@ -154,11 +154,20 @@ structure SameSt (st st' : St) : Prop where
   blocks : st'.blocks = st.blocks
   nbAlloc : st'.nbAlloc = st.nbAlloc
   totalAlloc : st'.totalAlloc = st.totalAlloc
+  oti : st'.oti = st.oti
+  aLarge : st'.aLarge = st.aLarge
+  aSmall : st'.aSmall = st.aSmall
+  nbALarge : st'.nbALarge = st.nbALarge
+  nbBlocks : st'.nbBlocks = st.nbBlocks
+  maxSize : st'.maxSize = st.maxSize
+  cacheSize : st'.cacheSize = st.cacheSize
 
-theorem SameSt.refl (st : St) : SameSt st st := ⟨rfl, rfl, rfl, rfl, rfl, rfl, rfl⟩
+theorem SameSt.refl (st : St) : SameSt st st := ⟨rfl, rfl, rfl, rfl, rfl, rfl, rfl, rfl, rfl, rfl, rfl, rfl, rfl, rfl⟩
 theorem SameSt.trans {a b c : St} (h1 : SameSt a b) (h2 : SameSt b c) : SameSt a c :=
   ⟨h2.md5Check.trans h1.md5Check, h2.md5.trans h1.md5, h2.tl.trans h1.tl, h2.cenc.trans h1.cenc,
-   h2.blocks.trans h1.blocks, h2.nbAlloc.trans h1.nbAlloc, h2.totalAlloc.trans h1.totalAlloc⟩
+   h2.blocks.trans h1.blocks, h2.nbAlloc.trans h1.nbAlloc, h2.totalAlloc.trans h1.totalAlloc,
+   h2.oti.trans h1.oti, h2.aLarge.trans h1.aLarge, h2.aSmall.trans h1.aSmall, h2.nbALarge.trans h1.nbALarge,
+   h2.nbBlocks.trans h1.nbBlocks, h2.maxSize.trans h1.maxSize, h2.cacheSize.trans h1.cacheSize⟩
 
 
 /-- `st'` is `st` after some `write` calls (and block-writer bookkeeping): everything the invariant reads is unchanged,
@@ -197,7 +206,7 @@ theorem Inv.wr {st st' : St} (h : Inv st) (ho : st.writer = some .opened) (w : W
   · rw [w.writer, w.fdt]; exact h.fdt
 
 theorem wr_wWrite (P : Params) (st : St) (sbn : Nat) (d : Bytes) : Wr st (wWrite P st sbn d).1 := by
-  refine ⟨rfl, rfl, rfl, rfl, rfl, id, ?_, ⟨rfl, rfl, rfl, rfl, rfl, rfl, rfl⟩, ?_⟩
+  refine ⟨rfl, rfl, rfl, rfl, rfl, id, ?_, ⟨rfl, rfl, rfl, rfl, rfl, rfl, rfl, rfl, rfl, rfl, rfl, rfl, rfl, rfl⟩, ?_⟩
   · intro h
     simp [wWrite, pstateOf_cons, evOf, h, WriterProto.step]
   · intro h; simpa [wWrite, noComplete] using h
@@ -252,7 +261,7 @@ theorem wr_decodeWritePkt (P : Params) (st : St) (w : BW) (pkt : Bytes) {st' : S
   · exact wr_dwLoop _ _ _ _ _ _ _ h
 
 theorem wr_setBw (st : St) (w : BW) : Wr st { st with bw := some w } :=
-  ⟨rfl, rfl, rfl, rfl, rfl, fun _ => rfl, id, ⟨rfl, rfl, rfl, rfl, rfl, rfl, rfl⟩, id⟩
+  ⟨rfl, rfl, rfl, rfl, rfl, fun _ => rfl, id, ⟨rfl, rfl, rfl, rfl, rfl, rfl, rfl, rfl, rfl, rfl, rfl, rfl, rfl, rfl⟩, id⟩
 
 theorem wr_bwData (P : Params) (st : St) (w : BW) (data : Bytes) {st' : St} {w' : BW} {b : Bool}
     (h : bwData P st w data = .ok (st', w', b)) : Wr st st' := by
